@@ -159,13 +159,21 @@ def store_seq(r, namepool):
     def nxt():
         tag[0] += 1
         return "%04x" % tag[0]
+    if what == "pkt" and r.random() < 0.35:                    # the packet starts from cif_packet_create(names)
+        pick = [r.choice(vs[:9]) for vs in fam]
+        if r.random() < 0.25:
+            pick.append(r.choice(r.choice(fam)[:9]))           # possibly a second spelling of one item: CIF_DUP_ITEMNAME
+        if r.random() < 0.1:
+            pick.append(r.choice(["a b", ""]))                 # an invalid name: CIF_INVALID_ITEMNAME
+        ops.append("N:" + ",".join(hk(k) for k in pick))
+        ops.append("k")
     for vs in fam:                                             # build: one or two sets per base word, under unusual spellings
         for _ in range(r.randrange(1, 3)):
             ops.append("s:%s:%s" % (hk(r.choice(vs[:3] + vs[3:9])), nxt()))
     if what == "tbl":
         for k in r.sample(["", " ", "a b", "\t", "A", "a"], r.randrange(0, 3)):
             ops.append("s:%s:%s" % (hk(k), nxt()))
-    store = (lambda: r.choice(["S", "P"])) if what == "tbl" else (lambda: "P")
+    store = (lambda: r.choice(["S", "P", "C"])) if what == "tbl" else (lambda: "P")
     if r.random() < 0.15:
         ops.append("k")
     ops.append(store())
@@ -390,7 +398,18 @@ def oracle(req, impl):
             return "answer has %d results for %d operations" % (len(res), len(ops))
         for op, got in zip(ops, res):
             p = op.split(":")
-            if p[0] in ("S", "P"):
+            if p[0] == "C":
+                want = "C=0"                                   # a clone is indistinguishable from the table it was made of
+            elif p[0] == "N":
+                nms = p[1].split(",")
+                if not all(_valid.spec_name(unhexs(x), True) for x in nms):
+                    want = "N=%d" % INVALID_ITEMNAME
+                elif len({g[x][2] for x in nms}) != len(nms):
+                    want = "N=41"                              # CIF_DUP_ITEMNAME: two spellings of one item
+                else:
+                    want = "N=0"
+                    table = {g[x][2]: (x, "~") for x in nms}   # every item holds the unknown value
+            elif p[0] in ("S", "P"):
                 # through a managed CIF and back: the read-back object must be indistinguishable as far as the property speaks -
                 # a TABLE keeps keys, spellings and values; a PACKET from an iterator keeps the items (matched by normalised name),
                 # the spelling under which its names enumerate is not fixed by any property: the entered one or the normal form
